@@ -81,7 +81,28 @@ func ValidateServices(i Input) error {
 		}
 		errs = append(errs, grouperror.Prefix(fmt.Sprintf("%+q: ", n), sErrs...))
 	}
+	errs = append(errs, validateUniqueGetters(i.Services)...)
 	return grouperror.Prefix("services: ", errs...)
+}
+
+// validateUniqueGetters reports getters that are defined by more than one service,
+// they would be generated as duplicate methods of the container.
+func validateUniqueGetters(services map[string]Service) []error {
+	getters := make(map[string][]string)
+	for _, n := range maps.Keys(services) {
+		s := services[n]
+		if ptr.Dereference(s.Todo, DefaultServiceTodo) || s.Getter == nil || *s.Getter == "" {
+			continue
+		}
+		getters[*s.Getter] = append(getters[*s.Getter], fmt.Sprintf("%+q", n))
+	}
+	var errs []error
+	for _, g := range maps.Keys(getters) {
+		if len(getters[g]) > 1 {
+			errs = append(errs, fmt.Errorf("getter %+q is defined by more than one service: %s", g, strings.Join(getters[g], ", ")))
+		}
+	}
+	return errs
 }
 
 func ValidateServiceName(n string) error {
